@@ -1025,6 +1025,8 @@ add("C13", "revert: heredoc-tag rewind keeps the advanced line", "sqlglot/tokeni
 add("C13", "revert: command text token keeps the nested scan's start", "sqlglot/tokenizer_core.py",
     "                self._start = start + len(raw) - len(raw.lstrip())\n", "", "C13.j")
 
+add("C13", "revert: dashed BigQuery name keeps the span of its first fragment", "sqlglot/parsers/bigquery.py",
+    "            if last and \"start\" in first.meta:\n                # The merged name ends where its last fragment ends\n                this.update_positions(\n                    line=last.line, col=last.col, start=first.meta[\"start\"], end=last.end\n                )\n", "", "C13.m")
 add("C13", "Athena parse_into drops the source text on the Trino branch", "sqlglot/parsers/athena.py",
     "        return self._trino_parser.parse_into(expression_types, raw_tokens, sql)\n", "        return self._trino_parser.parse_into(expression_types, raw_tokens)\n", "C13.l")
 add("C13", "benign: Dialect.parse keeps the tokens in a local before handing them on", "sqlglot/dialects/dialect.py",
